@@ -11,8 +11,8 @@ Quantifiers: every history of load / partial change / validate / stop / malforme
 (`runOps State.init ops`), every configuration, every fault at every provision / validate / start
 / bind / post-start point, every map order — no bound on anything.
 
-Clauses the unchanged tree violates are refuted in Witness.lean (F4: OnCancel callbacks; writers
-pool; F20: hosts pool) and proved here outside explicit decidable regions.
+Clauses the unchanged tree violates are refuted in Witness.lean (F4: OnCancel callbacks, writers
+pool). The hosts-pool clause holds at full strength since fix d6561d4 (F20).
 -/
 import CaddyModel.C03.Witness
 import CaddyModel.C01.Props
@@ -125,14 +125,15 @@ theorem stop_only_of_started (ops : List Op) (hw : ∀ op ∈ ops, opWF op) (c n
 
 /-! ### resources are a function of the running configuration -/
 
-/-- **pools_function_of_current_partial** (the full statement is refuted in Witness.lean: F20 for
-    this pool, F4 for the writers pool). For every history in which no submitted reverse proxy
-    fails before setting up its upstreams (`opNE`, decidable), with every other fault anywhere:
-    the guest / hosts pool holds, for every key, exactly as many references as the modules of the
-    running configuration hold — nothing for rejected, replaced, validated or stopped ones. -/
-theorem pools_function_of_current_partial (ops : List Op) (hw : ∀ op ∈ ops, opNE op) (k : Nat) :
+/-- **pools_function_of_current** for the guest / hosts usage pool — FULL strength (since fix
+    d6561d4; the old reverse_proxy Cleanup breaks it: Witness.hosts_function_of_current_old_code_fails;
+    for the writers pool the clause is refuted: F4). For every history, with every fault anywhere —
+    including reverse proxies failing before or after they set up their upstreams: the pool
+    holds, for every key, exactly as many references as the modules of the running configuration
+    hold — nothing for rejected, replaced, validated or stopped ones. -/
+theorem pools_function_of_current (ops : List Op) (k : Nat) :
     (runOps State.init ops).mpool k = (curKeys (runOps State.init ops)).count k :=
-  (inv5_runOps ops State.init inv5_init hw).pool k
+  (inv5_runOps ops State.init inv5_init).pool k
 
 /-- bound sockets are a function of the running configuration, outside C01's F2 region
     (C01.history_atomic_partial, restated for this property) -/
@@ -162,11 +163,15 @@ def exC : Cfg := ⟨0, [], [⟨0, 5, 0, [2], [⟨0, 2⟩]⟩, ⟨1, 6, 5, [], []
 def exE : Env := ⟨true, false, 0, [], [0, 1, 3], [0, 1, 3]⟩
 /-- healthy, but the post-start step will fail -/
 def exD : Cfg := ⟨0, [], [⟨0, 5, 0, [2], [⟨0, 2⟩]⟩, ⟨1, 6, 0, [], []⟩]⟩
-def exOps : List Op := [.load exA exE, .load exB exE, .load exC exE, .validate exB exE, .load exD ⟨true, true, 0, [], [0, 1], [0, 1]⟩]
+/-- its reverse proxy to upstream 4 (shared with exA) fails before setting up its upstreams -/
+def exF : Cfg := ⟨0, [], [⟨3, 9, 0, [], [⟨3, 4⟩]⟩]⟩
+def exOps : List Op := [.load exA exE, .load exB exE, .load exC exE, .validate exB exE,
+  .load exD ⟨true, true, 0, [], [0, 1], [0, 1]⟩, .load exF exE, .load exD ⟨true, false, 2, [], [0, 1], [0, 1]⟩]
 
 -- the history has rejected loads in every phase and satisfies the hypotheses
-example : (trace State.init exOps).map (·.1) = [.ok, .errProvision, .errStart, .errProvision, .errPost] := by decide
-example : (∀ op ∈ exOps, opWF op) ∧ (∀ op ∈ exOps, opNE op) := by decide
+example : (trace State.init exOps).map (·.1) =
+    [.ok, .errProvision, .errStart, .errProvision, .errPost, .errProvision, .errAdmin] := by decide
+example : ∀ op ∈ exOps, opWF op := by decide
 -- an instance of a rejected config that was provisioned and then cleaned at cancel, exactly once
 example : Ev.prov ⟨8, 1, 0, 1⟩ ∈ (runOps State.init exOps).events ∧
     (runOps State.init exOps).events.count (.clean ⟨8, 1, 0, 1⟩) = 1 ∧
